@@ -11,7 +11,9 @@ Unknown shapes raise -> `o.item` falls back to the pinned value and records a de
 the harness then skips the per-schedule model comparison and relies on the oracle.
 """
 import ast
+import os
 
+from .. import core
 from ..extract import HEADER, Src, lean_list, lean_str
 
 PINNED_SINGLE = {
@@ -33,6 +35,16 @@ PINNED_LRU = {
     "result_index": [1, 1],
     "key_form": "tuple(args, frozenset(kwargs.items()))",
 }
+
+PINNED_GLUE = {
+    "single": ["guard:func is None", "forward:valid_for_seconds", "cache:per-function", "init:no-entry", "return:wrapper"],
+    "lru": ["guard:func is None", "forward:max_size", "forward:valid_for_seconds", "cache:per-function", "init:no-entry", "return:wrapper"],
+}
+PINNED_SITES = [
+    {"module": "orso.dataframe", "qualname": "DataFrame.column_names", "decorator": "single_item_cache", "form": "bare", "others": ["property"], "nested": False},
+    {"module": "orso.dataframe", "qualname": "DataFrame.columncount", "decorator": "single_item_cache", "form": "bare", "others": ["property"], "nested": False},
+]
+DECORATORS = ("single_item_cache", "lru_cache_with_expiry")
 
 CMP = {ast.LtE: "<=", ast.Lt: "<", ast.GtE: ">=", ast.Gt: ">", ast.Eq: "==", ast.NotEq: "!="}
 
@@ -291,10 +303,210 @@ def lru(src):
     return {"lines": lines, "expire_op": expire_op, "pop_last": bool(pop_last), "result_index": res_idx, "key_form": key_form}
 
 
+def glue(src, outer):
+    """The decorator's own plumbing, as facts: the `func is None` guard and what the factory branch forwards, in which
+    scope the cache is created relative to the scope that binds the wrapped function, its initial value, what is returned.
+
+    Two shapes are understood (anything else raises -> pinned value, degradation note, never an alarm):
+      A  def D(func=None, *, p=..): if func is None: return lambda f: D(f, p=p); cache = ..; def wrapper..; return wrapper
+      B  def D(func=None, *, p=..): def decorator(func): [cache = ..]; def wrapper..; return wrapper
+                                    [cache = ..]; return decorator if func is None else decorator(func)   (or the two-statement form)
+    `cache:per-function` = the cache is created in the body of the function whose parameter is the wrapped function, i.e. once
+    per decorated function; `cache:outer-scope` = in shape B it is created in D's own body: ONE cache for everything a configured
+    decorator `d = D(p=..)` is applied to."""
+    fn = src.func(outer)
+    w = _wrapper(src, outer)
+    called = [c.func.id for c in ast.walk(w) if isinstance(c, ast.Call) and isinstance(c.func, ast.Name)
+              and any(isinstance(a, ast.Starred) for a in c.args)]
+    if len(set(called)) != 1:
+        raise KeyError("the call of the wrapped function")
+    fvar = called[0]
+    body = [b for b in fn.body if not (isinstance(b, ast.Expr) and isinstance(b.value, ast.Constant))]
+    kwonly = [a.arg for a in fn.args.kwonlyargs]
+    if not fn.args.args or fn.args.args[0].arg != fvar or len(fn.args.args) != 1 or fn.args.vararg or fn.args.kwarg:
+        raise KeyError("signature of the decorator")
+
+    def cache_assign(stmts):
+        out = []
+        for i, b in enumerate(stmts):
+            t = b.targets[0] if isinstance(b, ast.Assign) and len(b.targets) == 1 else (b.target if isinstance(b, ast.AnnAssign) else None)
+            if t is not None and _is_name(t, "cache") and getattr(b, "value", None) is not None:
+                out.append((i, b.value))
+        return out
+
+    facts = []
+    if any(b is w for b in body):
+        # shape A
+        g = body[0]
+        if not (isinstance(g, ast.If) and ast.unparse(g.test) == "%s is None" % fvar and len(g.body) == 1
+                and isinstance(g.body[0], ast.Return) and not g.orelse):
+            raise KeyError("guard shape")
+        facts.append("guard:%s is None" % fvar)
+        lam = g.body[0].value
+        if not (isinstance(lam, ast.Lambda) and len(lam.args.args) == 1 and isinstance(lam.body, ast.Call) and _is_name(lam.body.func, outer)
+                and len(lam.body.args) == 1 and _is_name(lam.body.args[0], lam.args.args[0].arg)):
+            raise KeyError("factory branch shape")
+        fwd = {}
+        for k in lam.body.keywords:
+            if k.arg is None or k.arg not in kwonly or not _is_name(k.value):
+                raise KeyError("factory branch forwards something unusual")
+            fwd[k.arg] = k.value.id
+        for a in sorted(kwonly):
+            if a not in fwd:
+                facts.append("not-forwarded:%s" % a)       # the configured value is dropped: the default applies
+            elif fwd[a] != a:
+                facts.append("forward:%s=%s" % (a, fwd[a]))  # another parameter's value is passed
+            else:
+                facts.append("forward:%s" % a)
+        rest = body[1:]
+        ca = cache_assign(rest)
+        widx = [i for i, b in enumerate(rest) if b is w][0]
+        if len(ca) != 1 or ca[0][0] > widx:
+            raise KeyError("where the cache is created")
+        if any(not (b is w or (i == ca[0][0]) or isinstance(b, ast.Return)) for i, b in enumerate(rest)):
+            raise KeyError("other statements in the decorator")
+        facts.append("cache:per-function")
+        init = ca[0][1]
+        ret = [b for b in rest if isinstance(b, ast.Return)]
+    else:
+        # shape B
+        decs = [b for b in body if isinstance(b, ast.FunctionDef) and any(x is w for x in b.body)]
+        if len(decs) != 1:
+            raise KeyError("enclosing function of wrapper")
+        dec = decs[0]
+        if [a.arg for a in dec.args.args] != [fvar] or dec.args.vararg or dec.args.kwarg or dec.args.kwonlyargs:
+            raise KeyError("signature of the inner decorator")
+        others = [b for b in body if b is not dec]
+        ca_outer, ca_inner = cache_assign(others), cache_assign(dec.body)
+        disp = [b for i, b in enumerate(others) if i not in [i for i, _ in ca_outer]]
+        texts = [ast.unparse(b) for b in disp]
+        d = dec.name
+        ok_disp = (texts == ["if %s is None:\n    return %s" % (fvar, d), "return %s(%s)" % (d, fvar)]
+                   or texts == ["return %s if %s is None else %s(%s)" % (d, fvar, d, fvar)]
+                   or texts == ["if %s is not None:\n    return %s(%s)" % (fvar, d, fvar), "return %s" % d])
+        if not ok_disp:
+            raise KeyError("dispatch shape")
+        if any(a in [x.arg for x in ast.walk(dec) if isinstance(x, ast.arg)] for a in kwonly):
+            raise KeyError("a configuration parameter is shadowed")
+        facts.append("guard:%s is None" % fvar)
+        facts.extend("forward:%s" % a for a in sorted(kwonly))  # closed over: nothing to forward
+        widx = [i for i, b in enumerate(dec.body) if b is w][0]
+        if len(ca_inner) == 1 and not ca_outer and ca_inner[0][0] < widx:
+            facts.append("cache:per-function")
+            init = ca_inner[0][1]
+        elif len(ca_outer) == 1 and not ca_inner:
+            facts.append("cache:outer-scope")
+            init = ca_outer[0][1]
+        else:
+            raise KeyError("where the cache is created")
+        ret = [b for b in dec.body if isinstance(b, ast.Return)]
+    facts.append("init:" + _init_kind(init, w))
+    if len(ret) != 1 or ret[0].value is None:
+        raise KeyError("what the decorator returns")
+    facts.append("return:" + ast.unparse(ret[0].value))
+    return facts
+
+
+def _init_kind(init, w):
+    """What the initial cache value means for the first call: `no-entry` (it can equal no call / the dict is empty),
+    `equals-zero-argument-call` (it IS the argument signature of f()); anything else is not understood (raises)."""
+    if isinstance(init, ast.Call) and not init.args and not init.keywords and ast.unparse(init.func) in ("OrderedDict", "collections.OrderedDict", "dict"):
+        return "no-entry"
+    if isinstance(init, ast.Dict) and not init.keys:
+        return "no-entry"
+    if isinstance(init, ast.Tuple):
+        varg, vkw = w.args.vararg.arg, w.args.kwarg.arg
+        pub = [s.value for s in ast.walk(w) if isinstance(s, ast.Assign) and len(s.targets) == 1 and _is_name(s.targets[0], "cache")
+               and isinstance(s.value, ast.Tuple)]
+        if len(pub) != 1 or len(pub[0].elts) != len(init.elts):
+            raise KeyError("published tuple")
+        names = [e.id if _is_name(e) else None for e in pub[0].elts]
+        if varg not in names or vkw not in names:
+            raise KeyError("published tuple fields")
+        a, k = init.elts[names.index(varg)], init.elts[names.index(vkw)]
+        is_none = lambda n: isinstance(n, ast.Constant) and n.value is None  # noqa: E731
+        if is_none(a) or is_none(k):
+            return "no-entry"  # None is equal to no tuple of positional arguments / no dict of keyword arguments
+        empty_args = isinstance(a, ast.Tuple) and not a.elts or ast.unparse(a) == "tuple()"
+        empty_kw = isinstance(k, ast.Dict) and not k.keys or ast.unparse(k) == "dict()"
+        if empty_args and empty_kw:
+            return "equals-zero-argument-call"
+    raise KeyError("initial cache value")
+
+
+def use_sites():
+    """Every `def` in the orso package decorated with one of the two cache decorators (bare, called, through an import alias,
+    or through a module-level name bound to a configured decorator)."""
+    root = os.path.join(core.REPO, "orso")
+    out = []
+    for dp, dns, fns in os.walk(root):
+        dns[:] = sorted(d for d in dns if d not in ("tests", "__pycache__"))
+        for f in sorted(fns):
+            if not f.endswith(".py"):
+                continue
+            path = os.path.join(dp, f)
+            try:
+                tree = ast.parse(open(path, encoding="utf-8").read())
+            except (OSError, SyntaxError):
+                continue
+            rel = os.path.relpath(path, core.REPO)[:-3].replace(os.sep, ".")
+            if rel.endswith(".__init__"):
+                rel = rel[: -len(".__init__")]
+            names = {d: d for d in DECORATORS} if rel == "orso.tools" else {}
+            for n in ast.walk(tree):
+                if isinstance(n, ast.ImportFrom):
+                    for a in n.names:
+                        if a.name in DECORATORS:
+                            names[a.asname or a.name] = a.name
+            for b in tree.body:  # configured decorators bound to a name
+                if isinstance(b, ast.Assign) and len(b.targets) == 1 and _is_name(b.targets[0]) and isinstance(b.value, ast.Call):
+                    base = b.value.func
+                    nm = base.id if _is_name(base) else (base.attr if isinstance(base, ast.Attribute) else None)
+                    if names.get(nm, nm if nm in DECORATORS and isinstance(base, ast.Attribute) else None):
+                        names[b.targets[0].id] = names.get(nm, nm) + "(...)"
+
+            def visit(node, path_, nested):
+                for ch in ast.iter_child_nodes(node):
+                    if isinstance(ch, ast.ClassDef):
+                        visit(ch, path_ + [ch.name], nested)
+                    elif isinstance(ch, (ast.FunctionDef, ast.AsyncFunctionDef)):
+                        others, hit = [], None
+                        for d in ch.decorator_list:
+                            base = d.func if isinstance(d, ast.Call) else d
+                            nm = base.id if _is_name(base) else (base.attr if isinstance(base, ast.Attribute) else None)
+                            real = names.get(nm) or (nm if isinstance(base, ast.Attribute) and nm in DECORATORS else None)
+                            if real:
+                                hit = (real, "call" if isinstance(d, ast.Call) else "bare", ast.unparse(d))
+                            else:
+                                others.append(ast.unparse(d))
+                        if hit and not (rel == "orso.tools" and ch.name in DECORATORS):
+                            out.append({"module": rel, "qualname": ".".join(path_ + [ch.name]), "decorator": hit[0], "form": hit[1],
+                                        "text": hit[2], "others": others, "nested": nested, "lineno": ch.lineno})
+                        visit(ch, path_ + [ch.name], True)
+                    else:
+                        visit(ch, path_, nested)
+
+            visit(tree, [], False)
+    return out
+
+
 def generate(o):
     src = Src("orso/tools.py")
     s = o.item("c19.single", lambda: single(src), PINNED_SINGLE)
     l = o.item("c19.lru", lambda: lru(src), PINNED_LRU)
+    gs = o.item("c19.single_glue", lambda: glue(src, "single_item_cache"), PINNED_GLUE["single"])
+    gl = o.item("c19.lru_glue", lambda: glue(src, "lru_cache_with_expiry"), PINNED_GLUE["lru"])
+    try:
+        df = Src("orso/dataframe.py")
+        cls = [n for n in df.tree.body if isinstance(n, ast.ClassDef) and n.name == "DataFrame"][0]
+        o.json["c19.dataframe_defines_eq"] = any(isinstance(b, ast.FunctionDef) and b.name == "__eq__" for b in cls.body)
+    except Exception:
+        o.json["c19.dataframe_defines_eq"] = None
+    try:
+        o.json["c19.use_sites"] = use_sites()
+    except Exception as e:  # never an alarm: the run-time scan still finds the sites
+        o.json["c19.use_sites"] = PINNED_SITES
+        o.degraded.append("c19.use_sites (%s: %s)" % (type(e).__name__, str(e)[:60]))
     text = HEADER + "namespace Gen.Cache\n"
     text += "/-- single_item_cache wrapper: the source lines that touch shared state, each with its atomic micro-operations (local-only lines merged into the preceding line) -/\n"
     text += "def singleLines : List (List String) := %s\n" % lean_list(s["lines"], lambda ops: lean_list(ops, lean_str))
@@ -310,5 +522,9 @@ def generate(o):
     text += "def lruResultIndex : Nat × Nat := (%d, %d)\n" % tuple(l["result_index"])
     text += "/-- how the LRU wrapper builds the dictionary key from the call's arguments (anything but the tuple of the positional arguments and the frozenset of the keyword items changes what `equal arguments` means, e.g. a hash) -/\n"
     text += "def lruKeyForm : String := %s\n" % lean_str(l.get("key_form", PINNED_LRU["key_form"]))
+    text += "/-- the decorator plumbing of single_item_cache: the `func is None` guard, what the factory branch forwards, the scope in which the cache is created (per decorated function, or an outer scope shared by everything one configured decorator is applied to), its initial value, what is returned -/\n"
+    text += "def singleGlue : List String := %s\n" % lean_list(gs, lean_str)
+    text += "/-- the same for lru_cache_with_expiry -/\n"
+    text += "def lruGlue : List String := %s\n" % lean_list(gl, lean_str)
     text += "end Gen.Cache\n"
     o.files["Cache.lean"] = text
